@@ -28,7 +28,7 @@ CLAIMED = {
     'C02': dict(
         technique='Lean 4 proof (polynomial identities + sign witness over an arbitrary ordered field, per card of the mnemonic table) + model↔code correspondence per card + Lean point monitor',
         text=("Proved in Lean over any linearly ordered field (transcendental functions only through sqrt(x)²=x, "
-              "tan(atan x)=x, π≠0; instantiated at ℝ): for every card of PX/PY/PZ, P (4 entries), SO/S/SX/SY/SZ, "
+              "tan(atan x)=x, π≠0; instantiated at ℝ): for every card of PX/PY/PZ, P (4 entries and the three-point form with MCNP's orientation cascade), SO/S/SX/SY/SZ, "
               "C/X.. and CX.., K/X.. and KX.. with and without the sheet selector, SQ (constant term ≤ 0), GQ, TX/TY/TZ "
               "(6 entries) and the point-defined X/Y/Z (plane, cylinder and one-sheet cone cases), the model of "
               "normalize_surface + mcnp2cad + conversion_surface_params emits surfaces whose implicit function is a "
@@ -37,8 +37,8 @@ CLAIMED = {
               "with positive constant term are proved to come out with reversed orientation "
               "(sq_positive_centre_is_reversed = open finding F14). The model is compared with the code card by card "
               "(kind, side, parameters to 1e-9) and the Lean spec monitor locates sample points in probe decks. Not "
-              "proved: the three-point form of P (orientation cascade; correspondence + monitor only) and the "
-              "5-entry torus."),
+              "proved: the 5-entry torus; the three-point theorem is in exact arithmetic (tolerances 1e-10/1e-14 of "
+              "planeParamsFromPoints set to 0)."),
         design_ref='§8 C02'),
     'C03': dict(
         technique='Lean 4 proof (facet-by-facet agreement over an arbitrary ordered field; cross-product identities for either handedness) + model↔code correspondence per body + Lean point monitor',
